@@ -127,7 +127,7 @@ Definition clause (c : case) : bool :=
   end.
 
 (* where selector.append and `&` take different routes through the code: the `&` route unifies with the empty
-   compound (C19 classes K2, K3, duplicates) and panics instead of reporting the error (C19 class K1) *)
+   compound (C19 classes K2, K3, duplicates) *)
 Definition append_class (c : case) : N :=
   match c_kind c with
   | 1%N =>
